@@ -74,8 +74,8 @@ func (c *Collection) writeWithMeta(key string, body []byte, xattrs []byte, oldCa
 				xattrs:     xattrs,
 				cas:        newCas,
 				exp:        exp,
-				isDeletion: isDeletion,
-				isJSON:     isJSON,
+				isDeletion: isDeletion || body == nil, // a document stored without a body is a tombstone
+				isJSON:     isJSON && body != nil,
 				revSeqNo:   revSeqNo,
 			}
 			if err := c.storeDocument(txn, e); err != nil {
